@@ -15,6 +15,7 @@
 #include <iostream>
 #include <exception>
 #include <unistd.h>
+#include <csignal>
 
 namespace hx
 {
@@ -185,6 +186,16 @@ namespace hx
     {
         Out o;
         o.str("e", "crash").str("what", "std::terminate");
+        trace().emit(o.done());
+        trace().flush();
+        _exit(0);
+    }
+
+    // aborts (assertions of the library / Eigen, sanitizer-free builds) and segmentation faults are logged as an event as well
+    inline void on_signal(int sig)
+    {
+        Out o;
+        o.str("e", "crash").str("what", sig == 6 ? "SIGABRT" : sig == 11 ? "SIGSEGV" : "signal").i("signal", sig);
         trace().emit(o.done());
         trace().flush();
         _exit(0);
